@@ -25,12 +25,16 @@ def seeded(seed, n):
             pts.append([x, y])
         if mode == "loop" and pts:
             pts.append(pts[0][:])
-        out.append(dict(pts=pts, stride=r.choice([2, 3, 4, 5]), thr=r.choice([[0, 1], [1, 2], [1, 1], [3, 2], [2, 1], [5, 1], [1, 4]])))
+        out.append(dict(pts=pts, stride=r.choice([2, 3, 4, 5]), fill=r.choice(["", "", "next", "prev"]), thr=r.choice([[0, 1], [1, 2], [1, 1], [3, 2], [2, 1], [5, 1], [1, 4]])))
     return out
 
 
 def run(ctx, verdict):
-    ec.family(ctx, verdict, "rdp", nontrivial=lambda c: len(c["pts"]) >= 3)
+    fam = ec.family(ctx, verdict, "rdp", nontrivial=lambda c: len(c["pts"]) >= 3)
+    # the same enumerated sequences with extra ordinates that repeat a neighbour's (x, y): "extra ordinates are ignored"
+    alias = [dict(c, fill=f) for c in fam if c["stride"] > 2 and len(c["pts"]) >= 3 for f in ("next", "prev")]
+    vlib.note_cases(ctx, alias)
+    ec.pipe("rdp")(ctx, verdict, alias)
     cases = seeded(ctx.seed, 250 if ctx.quick else 5000)
     vlib.note_cases(ctx, cases, nontrivial=lambda c: len(c["pts"]) >= 3)
     ec.pipe("rdp")(ctx, verdict, cases)
